@@ -57,12 +57,15 @@ def rom_value(mem, addr):
 
 
 class RefSim(object):
-    def __init__(self, block, register_value_map=None, memory_value_map=None, default_value=0):
+    def __init__(self, block, register_value_map=None, memory_value_map=None, default_value=0,
+                 mem_default=None):
         import pyrtl
         self.pyrtl = pyrtl
         self.block = block
         self.order = topo(block)
         self.default = default_value
+        # sanctioned: CompiledSimulation does not apply a non-zero default_value to memories
+        self.mem_default = default_value if mem_default is None else mem_default
         self.regs = {}
         for r in block.wirevector_subset(pyrtl.Register):
             v = (register_value_map or {}).get(r, r.reset_value)
@@ -97,7 +100,7 @@ class RefSim(object):
                     memread = (lambda mem: lambda a: rom_value(mem, a))(mem)
                 else:
                     content = self.mems[mem.id]
-                    memread = (lambda content: lambda a: content.get(a, self.default))(content)
+                    memread = (lambda content: lambda a: content.get(a, self.mem_default))(content)
             d = n.dests[0]
             val[d] = netsem_int(n.op, n.op_param, args, [a.bitwidth for a in n.args], d.bitwidth,
                                 memread)
